@@ -130,6 +130,9 @@ def _worker(args):
             if res.get("status") == "timeout":
                 res = {"status": "harness_error", "error": f"run seed={seed} hangs"}
         agg["runs"] += 1
+        if opts.get("collect"):
+            slim = {k: v for k, v in res.items() if k not in ("sample", "traceback")}
+            agg.setdefault("collected", []).append([seed, digest(slim), res.get("status")])
         if agg["first_seed"] is None:
             agg["first_seed"] = seed
         agg["last_seed"] = seed
@@ -152,7 +155,9 @@ def _worker(args):
             agg["errors"].append({"seed": seed, **{k: res.get(k) for k in ("error", "traceback")}})
         if st == "violation":
             v = {"seed": seed, "plan": res.get("plan"), "violation": res.get("violation")}
-            if len(agg["violations"]) < opts.get("max_violations_per_worker", 4):
+            if opts.get("collect"):
+                agg["violations"].append({"seed": seed, "violation": res.get("violation")})
+            elif len(agg["violations"]) < opts.get("max_violations_per_worker", 4):
                 try:
                     v = eng.minimise(v, in_child)
                 except Exception as exc:  # noqa: BLE001
@@ -200,6 +205,7 @@ def run_batch(engine_mod: str, *, tier: str, master: int, n_runs: int, workers: 
             total["samples"].extend(a["samples"])
             total["errors"].extend(a["errors"])
             total["sim_seconds"] += a["sim_seconds"]
+            total.setdefault("collected", []).extend(a.get("collected", []))
             if a["first_seed"] is not None:
                 total["seeds"].append(a["first_seed"])
     total["wall_s"] = time.time() - t0
